@@ -269,6 +269,37 @@ func hasMin(cs []std.Coin) bool {
 	return false
 }
 
+// verdictArith evaluates the statement for one arithmetic op given the exact per-denomination
+// result `want` / `overflow`: "" = holds, else (class, detail).
+func verdictArith(op string, want []bcoin, overflow bool, res std.Coins, pc string) (string, string) {
+	wantPanic := overflow
+	safe := op == "add" || op == "sub"
+	if safe {
+		for _, c := range want {
+			if c.v.Sign() < 0 || !oDenomOK(c.d) {
+				wantPanic = true
+			}
+		}
+	}
+	switch {
+	case pc != "" && !wantPanic:
+		return "spurious-panic", fmt.Sprintf("%s panicked (%s) but the result %s is representable%s", op, pc, showB(want),
+			map[bool]string{true: " and valid", false: ""}[safe])
+	case pc == "" && wantPanic:
+		return "missed-panic", fmt.Sprintf("%s returned %s but a per-denomination result overflows int64 or the result is invalid (exact: %s)", op, showSet(res), showB(want))
+	case pc != "":
+		return "", ""
+	}
+	bad := len(res) != len(want)
+	for i := 0; !bad && i < len(res); i++ {
+		bad = res[i].Denom != want[i].d || big.NewInt(res[i].Amount).Cmp(want[i].v) != 0
+	}
+	if bad {
+		return "wrong-result", fmt.Sprintf("%s returned %s, want %s", op, showSet(res), showB(want))
+	}
+	return "", ""
+}
+
 func oracleArith(op string, a, b []std.Coin, res std.Coins, pc string, mutated bool) string {
 	if mutated {
 		return "VIOL:operand-mutated " + op + ": an operand's backing array changed"
@@ -281,39 +312,30 @@ func oracleArith(op string, a, b []std.Coin, res std.Coins, pc string, mutated b
 		sign = -1
 	}
 	want, overflow := oCombine(oMap(a), oMap(b), sign)
-	wantPanic := overflow
-	if op == "add" || op == "sub" {
-		for _, c := range want {
-			if c.v.Sign() < 0 || !oDenomOK(c.d) {
-				wantPanic = true
-			}
-		}
-	}
-	cls := func(c string) string {
-		// negative() wraps MinInt64: every Sub/SubUnsafe defect on an operand holding MinInt64 is that one cause
-		if sign < 0 && hasMin(b) {
-			return "minint64-negate"
-		}
-		return c
-	}
-	switch {
-	case pc != "" && !wantPanic:
-		return fmt.Sprintf("VIOL:%s %s panicked (%s) but the result %s is representable%s", cls("spurious-panic"), op, pc, showB(want),
-			map[bool]string{true: " and valid", false: ""}[op == "add" || op == "sub"])
-	case pc == "" && wantPanic:
-		return fmt.Sprintf("VIOL:%s %s returned %s but a per-denomination result overflows int64 or the result is invalid (exact: %s)", cls("missed-panic"), op, showSet(res), showB(want))
-	case pc != "":
+	cls, detail := verdictArith(op, want, overflow, res, pc)
+	if cls == "" {
 		return "ok"
 	}
-	if len(res) != len(want) {
-		return fmt.Sprintf("VIOL:%s %s returned %s, want %s", cls("wrong-result"), op, showSet(res), showB(want))
-	}
-	for i := range res {
-		if res[i].Denom != want[i].d || big.NewInt(res[i].Amount).Cmp(want[i].v) != 0 {
-			return fmt.Sprintf("VIOL:%s %s returned %s, want %s", cls("wrong-result"), op, showSet(res), showB(want))
+	// Classification only (the verdict above is already VIOL): the one recorded defect of Sub is
+	// that the subtrahend's MinInt64 is not negated (-1*MinInt64 wraps to MinInt64).  A violation
+	// is labelled `minint64-negate` only if the subtrahend holds MinInt64 AND the behaviour is
+	// exactly what "A + B with MinInt64 left as it is, every other amount negated" gives;
+	// every other Sub defect keeps its generic class and fails the run.
+	if sign < 0 && hasMin(b) {
+		nb := amap{}
+		for d, v := range oMap(b) {
+			if v.Cmp(minI64) == 0 {
+				nb[d] = new(big.Int).Set(v)
+			} else {
+				nb[d] = new(big.Int).Neg(v)
+			}
+		}
+		w2, o2 := oCombine(oMap(a), nb, 1)
+		if c2, _ := verdictArith(op, w2, o2, res, pc); c2 == "" {
+			cls = "minint64-negate"
 		}
 	}
-	return "ok"
+	return "VIOL:" + cls + " " + detail
 }
 
 func showB(cs []bcoin) string {
@@ -493,7 +515,8 @@ func exec1(t []string) (string, string) {
 		if oValid(ia) && oValid(ib) {
 			want, _ := oCmp(t[1], ia, ib)
 			switch {
-			case pc != "" && t[1] == "IsEqual":
+			case pc == "denoms" && t[1] == "IsEqual" && len(ia) == len(ib) && !want:
+				// the one recorded defect: equal length, different denominations, Coin.IsEqual's denom panic
 				orc = fmt.Sprintf("VIOL:isequal-panic IsEqual panicked (%s) on two valid sets; per-denomination comparison says %v", pc, want)
 			case pc != "":
 				orc = fmt.Sprintf("VIOL:cmp-panic %s panicked (%s) on two valid sets", t[1], pc)
